@@ -1,5 +1,5 @@
 (* allow-axioms:  *)
-From RRE Require Import Base.Sx Generated.Consts Model.ReteAgenda Model.Incremental Proofs.IncrementalProofs.
+From RRE Require Import Base.Sx Generated.Consts Model.ReteAgenda Model.Incremental Proofs.IncrementalProofs Proofs.IncrementalViewsProofs.
 Open Scope Z_scope.
 From RRE Require Import Properties.C06.
 Check (C06_fires_only_if_true : forall x x' out,
@@ -9,3 +9,15 @@ Check (C06_fire_loop_sound : forall fuel iter x out x' out',
   Forall (firing_ok (rules (e_ x))) out -> Forall (firing_ok (rules (e_ x))) out').
 Check (C06_handles_fresh : forall x t d,
   snd (do_insert x t d) = next_h (e_ x) /\ next_h (e_ (fst (do_insert x t d))) = next_h (e_ x) + 1).
+Check (C06_views_agree : forall sorted rs ops f,
+  let e := e_ (exec sorted {| e_ := init rs; matched := [] |} ops) in
+  (In f (all_live e) <-> live_fact e (f_h f) = Some f)
+  /\ (In f (all_live e) <-> In f (facts_of_type e (f_type f)))
+  /\ (In f (all_live e) <-> In f (wm e) /\ f_retracted f = false)).
+Check (C06_retracted_in_no_view : forall sorted rs ops f,
+  let e := e_ (exec sorted {| e_ := init rs; matched := [] |} ops) in
+  In f (wm e) -> f_retracted f = true ->
+  live_fact e (f_h f) = None /\ ~ In f (all_live e) /\ ~ In f (facts_of_type e (f_type f))).
+Check (C06_handles_unique : forall sorted rs ops,
+  let x := exec sorted {| e_ := init rs; matched := [] |} ops in
+  NoDup (map f_h (wm (e_ x))) /\ forall h, In h (map f_h (wm (e_ x))) -> 1 <= h < next_h (e_ x)).
